@@ -28,6 +28,7 @@ func runC13(c *Ctx) {
 	p := c.P
 	// shared rule: history/tree scanners stop only at the end of their input (rules_c05.go)
 	scannerVerdictRule(c, "R6")
+	c13SingleCommit(c)
 	fp := p.Fn("commands", "fsckPointer")
 	objs := p.Fn("commands", "doFsckObjects")
 	ptrs := p.Fn("commands", "doFsckPointers")
@@ -402,4 +403,68 @@ var c13Canaries = []Canary{
 	{Name: "noncanonical-always", ExpectKey: "C13.R4#pointer-report:nonCanonicalPointer", Edits: []Edit{{File: "commands/command_fsck.go", Find: "			if !p.Canonical {", Repl: "			if !p.Canonical || len(p.Extensions) > 0 {"}}},
 	{Name: "tree-scan-size-filter", ExpectKey: "C13.R4#tree-scan-keeps-large-blobs", Edits: []Edit{{File: "lfs/gitscanner_tree.go", Find: "		return t != nil && (t.Mode == 0100644 || t.Mode == 0100755)", Repl: "		return t != nil && t.Size < blobSizeCutoff && (t.Mode == 0100644 || t.Mode == 0100755)"}}},
 	{Name: "swap-range", ExpectKey: "C13.R5#range-order", Edits: []Edit{{File: "commands/command_fsck.go", Find: "		if err := gitscanner.ScanRefRange(include, exclude, nil); err != nil {", Repl: "		if err := gitscanner.ScanRefRange(exclude, include, nil); err != nil {"}}},
+}
+
+// c13SingleCommit (R5, second half): `git lfs fsck` without arguments, or with one commit, checks that commit (and
+// the index) — not its history. The single-ref scans tell rev-list not to walk (--no-walk) through the scanner's
+// skipDeletedBlobs flag; without it the tree of every ancestor is visited and pointers that were fixed or removed
+// long ago are reported against a healthy revision. Decided: ScanRef and ScanRefByTree set the flag to true before
+// their scan runs, and no other scan entry point sets it.
+func c13SingleCommit(c *Ctx) {
+	p := c.P
+	want := map[string]bool{"(*GitScanner).ScanRef": true, "(*GitScanner).ScanRefByTree": true}
+	for _, fn := range p.RepoFuncs(func(s string) bool { return s == Mod+"/lfs" }) {
+		name := strings.TrimPrefix(FnName(fn), "lfs.")
+		name = strings.Replace(name, "(*lfs.GitScanner)", "(*GitScanner)", 1)
+		if !strings.HasPrefix(name, "(*GitScanner).Scan") {
+			continue
+		}
+		var stores []*ssa.Store
+		for _, b := range fn.Blocks {
+			for _, in := range b.Instrs {
+				if st, ok := in.(*ssa.Store); ok {
+					if fa, ok := st.Addr.(*ssa.FieldAddr); ok {
+						if _, f := fieldAddrName(fa); f == "skipDeletedBlobs" {
+							stores = append(stores, st)
+						}
+					}
+				}
+			}
+		}
+		if !want[name] {
+			for _, st := range stores {
+				bv, isC := ConstBool(st.Val)
+				c.Check(isC && !bv, "R5", "no-walk-only-for-single-ref:"+name, p.InstrPos(st), "range/history scans walk", name+" switches history walking off: commits inside the range are no longer scanned")
+			}
+			continue
+		}
+		// the private scan routines this entry point runs
+		var scans []ssa.CallInstruction
+		for _, b := range fn.Blocks {
+			for _, in := range b.Instrs {
+				if cc := AsCall(in); cc != nil && cc.StaticCallee() != nil && cc.StaticCallee().Pkg == fn.Pkg {
+					cn := cc.StaticCallee().Name()
+					if strings.HasPrefix(cn, "scan") {
+						scans = append(scans, in.(ssa.CallInstruction))
+					}
+				}
+			}
+		}
+		good := len(scans) > 0
+		why := name + " does not run a scan itself (it delegates to an entry point that walks history)"
+		for _, sc := range scans {
+			dom := false
+			for _, st := range stores {
+				if bv, isC := ConstBool(st.Val); isC && bv && (st.Block() == sc.Block() && InstrIndex(st) < InstrIndex(sc) || st.Block().Dominates(sc.Block()) && st.Block() != sc.Block()) {
+					dom = true
+				}
+			}
+			if !dom {
+				good = false
+				why = name + " runs its scan without having set skipDeletedBlobs (rev-list --no-walk)"
+			}
+		}
+		c.Check(good, "R5", "single-ref-scan-does-not-walk:"+name, p.Pos(fn.Pos()), "the scan of one ref looks at that commit only (--no-walk)",
+			why+": the trees of all ancestor commits are scanned and problems that exist only in history are reported for the checked revision")
+	}
 }
